@@ -577,6 +577,71 @@ func checkC02Layout(c *Check, p *Program) {
 	}
 	c.Floor(rule, "Pack/Unpack pairs compared item by item", nCmp, 12)
 	c.Floor(rule, "conditional tails compared with the encoder's condition", nTail, 1)
+	// util.Unpack: the one-octet arms take data[0] behind len(data) >= 1; the byte-slice arm fills the whole
+	// destination from the head of the input and fails exactly when the input is shorter than the destination
+	if uf := p.Func("knx/util", "Unpack"); uf != nil && len(uf.Params) == 2 {
+		in0 := uf.Params[0]
+		nArm := 0
+		instrsOf(uf, func(x ssa.Instruction) {
+			ta, ok := x.(*ssa.TypeAssert)
+			if !ok || ta.X != ssa.Value(uf.Params[1]) || !ta.CommaOk {
+				return
+			}
+			var val ssa.Value
+			for _, u := range usesOf(ta) {
+				if ex, ok := u.(*ssa.Extract); ok && ex.Index == 0 {
+					val = ex
+				}
+			}
+			if val == nil {
+				return
+			}
+			switch t := ta.AssertedType.(type) {
+			case *types.Pointer:
+				if primWidth(t.Elem()) != 1 {
+					return
+				}
+				nArm++
+				key := "util.Unpack arm " + t.String()
+				okSt := storesFirstOctet(uf, in0, val, 0)
+				okGuard := okSt
+				c.Decide(okSt && okGuard, "C02.primitive", key+" takes the first octet", p.InstrPos(ta), "*output = data[0] behind len(data) >= 1", "the one-octet arm does not store data[0] behind a check that one octet is present")
+			case *types.Slice:
+				nArm++
+				key := "util.Unpack arm []byte"
+				var cp *ssa.Call
+				for _, u := range usesOf(val) {
+					if call, ok := u.(*ssa.Call); ok && builtinName(call) == "copy" && call.Common().Args[0] == val && call.Common().Args[1] == ssa.Value(in0) {
+						cp = call
+					}
+				}
+				okCp := cp != nil
+				okGuard := false
+				if cp != nil {
+					// reached exactly when len(output) <= len(data)
+					okGuard = anyFact(factsAt(cp.Block()), func(f Cmp) bool {
+						lx, isX := stripAllConv(f.X).(*ssa.Call)
+						ly, isY := stripAllConv(f.Y).(*ssa.Call)
+						if !isX || !isY || builtinName(lx) != "len" || builtinName(ly) != "len" {
+							return false
+						}
+						ox, oy := lx.Common().Args[0], ly.Common().Args[0]
+						return (ox == val && oy == ssa.Value(in0) && f.Op == token.LEQ) || (ox == ssa.Value(in0) && oy == val && f.Op == token.GEQ)
+					})
+				}
+				okRet := false
+				if cp != nil {
+					for _, r := range returnsOf(uf) {
+						if len(r.Results) == 2 && stripAllConv(r.Results[0]) == ssa.Value(cp) && !p.returnMayBeNil(r, 1) == false {
+							okRet = true
+						}
+					}
+				}
+				c.Decide(okCp && okGuard && okRet, "C02.primitive", key+" fills the destination from the head of the input", p.InstrPos(ta), "copy(output, data) exactly when len(output) <= len(data), count returned", "the byte-slice arm does not copy into the whole destination exactly when the input is long enough (an input of exactly the destination's length must be accepted)")
+			}
+		})
+		c.Floor("C02.primitive", "one-octet and byte-slice arms of util.Unpack", nArm, 3)
+	}
 	// the frame header: Pack writes 06 10 service(2) total(2); UnpackHeader reads the same four items in that order
 	// and succeeds for the two constants the encoder writes
 	if uh := p.Func("knx/knxnet", "UnpackHeader"); uh != nil && len(uh.Params) == 3 {
@@ -647,6 +712,7 @@ func checkC02Layout(c *Check, p *Program) {
 	} else {
 		c.Fail("C02.layout", "knxnet.UnpackHeader", "", "not found")
 	}
+	checkOffsetLoopDecoders(c, p, "C02.tlv")
 	// byte-copy types: Pack is copy(buffer, X), Unpack copies the whole input into the same X
 	nCopy := 0
 	for _, pt := range declaredPackTypes(p) {
@@ -918,6 +984,39 @@ func checkC02Layout(c *Check, p *Program) {
 			c.Decide(okScan && worst < 0, "C02.primitive", "util.UnpackString result comes from the charmap decoder", p.InstrPos(st), "plain-ASCII fast path behind a scan that admits octets below 0x80 only", fmt.Sprintf("a string is handed out without passing the ISO 8859-1 decoder and the scan before it lets the octet %#x through: octets above 0x7F are not valid UTF-8 on their own, the name comes back as an invalid string", worst))
 		})
 		c.Floor("C02.primitive", "stores of the decoded string in util.UnpackString", nSt, 1)
+		// what is decoded are the first `length` octets of the field, nothing behind them
+		var lenP *ssa.Parameter
+		for _, prm := range us.Params {
+			if bt, ok := prm.Type().Underlying().(*types.Basic); ok && bt.Info()&types.IsInteger != 0 {
+				lenP = prm
+			}
+		}
+		nDec := 0
+		instrsOf(us, func(in ssa.Instruction) {
+			call, ok := in.(*ssa.Call)
+			if !ok || calleeObj(call) == nil || calleeObj(call).Name() != "Bytes" || len(call.Common().Args) == 0 {
+				return
+			}
+			nDec++
+			v := call.Common().Args[len(call.Common().Args)-1]
+			okCut := false
+			for d := 0; d < 6; d++ {
+				switch x := v.(type) {
+				case *ssa.Call:
+					if o := calleeObj(x); o != nil && (o.Name() == "TrimRight" || o.Name() == "TrimRightFunc") {
+						v = x.Common().Args[0]
+						continue
+					}
+				case *ssa.Slice:
+					if _, isP := x.X.(*ssa.Parameter); isP && x.Low == nil && x.High != nil && lenP != nil && stripAllConv(x.High) == ssa.Value(lenP) {
+						okCut = true
+					}
+				}
+				break
+			}
+			c.Decide(okCut, "C02.primitive", "util.UnpackString decodes exactly the field", p.InstrPos(call), "decoder input is buffer[:length] (trailing NULs trimmed)", "the string decoder is not handed exactly the first `length` octets of the buffer: octets of the following field become part of the name")
+		})
+		c.Floor("C02.primitive", "decoder calls in util.UnpackString", nDec, 1)
 	}
 }
 
@@ -1059,4 +1158,52 @@ func checkOverrides(c *Check, p *Program, rule string) {
 		}
 	}
 	c.Note("types overriding one direction of an embedded codec: %d", n)
+}
+
+// storesFirstOctet: fn stores data[0] (through width-preserving conversions)
+// into *dst behind len(data) >= 1 - directly, through a helper that is handed
+// (data, dst), or through a local that receives the octet that way.
+func storesFirstOctet(fn *ssa.Function, data ssa.Value, dst ssa.Value, depth int) bool {
+	if depth > 3 {
+		return false
+	}
+	found := false
+	instrsOf(fn, func(in ssa.Instruction) {
+		switch x := in.(type) {
+		case *ssa.Store:
+			if x.Addr != dst {
+				return
+			}
+			v := stripAllConv(x.Val)
+			ld, ok := v.(*ssa.UnOp)
+			if !ok || ld.Op != token.MUL {
+				return
+			}
+			if ia, ok := ld.X.(*ssa.IndexAddr); ok && ia.X == data {
+				if k, isK := constInt(ia.Index); isK && k == 0 {
+					guard := anyFact(factsAt(x.Block()), func(f Cmp) bool {
+						lc, isL := stripAllConv(f.X).(*ssa.Call)
+						k, isK := constInt(f.Y)
+						return isL && isK && builtinName(lc) == "len" && lc.Common().Args[0] == data && ((f.Op == token.GEQ && k == 1) || (f.Op == token.GTR && k == 0))
+					})
+					if guard {
+						found = true
+					}
+				}
+				return
+			}
+			if cell, ok := ld.X.(*ssa.Alloc); ok && storesFirstOctet(fn, data, cell, depth+1) {
+				found = true
+			}
+		case *ssa.Call:
+			callee := x.Common().StaticCallee()
+			if callee == nil || len(callee.Blocks) == 0 || len(x.Common().Args) != 2 || len(callee.Params) != 2 {
+				return
+			}
+			if x.Common().Args[0] == data && x.Common().Args[1] == dst && storesFirstOctet(callee, callee.Params[0], callee.Params[1], depth+1) {
+				found = true
+			}
+		}
+	})
+	return found
 }
